@@ -622,6 +622,16 @@ class Engine:
         if s.startswith(('copy ', 'move ', 'const ')):
             m = re.match(r'^(.*) as (.+?) \((\w+)(\(.*\))?\)$', s)
             if m and not s.startswith('const "'):
+                # the cast's ` as ` is the last one outside brackets (types may contain `<E as Trait>::Assoc`)
+                d_, cut = 0, None
+                for j, ch in enumerate(s):
+                    if ch in '<([': d_ += 1
+                    elif ch in ')]' or (ch == '>' and s[j - 1] != '-'): d_ -= 1
+                    elif d_ == 0 and s.startswith(' as ', j): cut = j
+                m2 = re.match(r'^(.+?) \((\w+)(\(.*\))?\)$', s[cut + 4:]) if cut is not None else None
+                if m2:
+                    v = self.eval_operand(st, s[:cut])
+                    return self.cast(st, v, m2.group(1).strip(), m2.group(2), m2.group(3))
                 v = self.eval_operand(st, m.group(1))
                 return self.cast(st, v, m.group(2).strip(), m.group(3), m.group(4))
             return self.eval_operand(st, s)
